@@ -577,6 +577,196 @@ theorem C02_prefix_without_slash_is_not_ownership :
     lookup [⟨b1, stripSlash cloud⟩] "http://h/cloud/x".toList = some b1 := by
   decide +kernel
 
+
+/-! ## 9. The secret in force for a backend is the one of the configuration loaded last
+
+`getConfiguredHosts` derives a section's secret from the section and the common secret it is handed; both callers —
+startup and `Reload` — hand it the common secret of the very file they are loading (`startHostsArgs`,
+`reloadHostsArgs`: where each argument of the call comes from, read from the source).  Hence nothing of an earlier
+file survives a reload: not a backend's former secret, not the former common secret. -/
+
+theorem C02_secret_source_facts :
+    secretProgram = [stmtSecretOwn, stmtSecretFallback, stmtSecretSkip] ∧
+    startHostsCall = hostsCallFromLoadedFile ∧ startHostsArgs = hostsArgsFromLoadedFile ∧
+    reloadHostsCall = hostsCallFromLoadedFile ∧ reloadHostsArgs = hostsArgsFromLoadedFile ∧
+    configuredHostsCallSites = 2 := by
+  decide +kernel
+
+theorem startFromLoadedFile_true : startFromLoadedFile = true := by decide +kernel
+theorem reloadFromLoadedFile_true : reloadFromLoadedFile = true := by decide +kernel
+
+theorem effectiveSecret_eq (own common : Bytes) :
+    effectiveSecret own common =
+      (let s := if own.isEmpty then common else own
+       if s.isEmpty then none else some s) := by
+  have h1 : secretProgram.contains stmtSecretFallback = true := by decide +kernel
+  have h2 : secretProgram.contains stmtSecretSkip = true := by decide +kernel
+  unfold effectiveSecret
+  rw [h1, h2]
+  cases own <;> cases common <;> simp
+
+theorem resolveSecrets_eq_spec (f : SecretFile) : resolveSecrets f.common f.backends = specSecrets f := by
+  have hfun : (fun r : Backend => (effectiveSecret r.secret f.common).map fun s => (⟨r.id, s⟩ : Backend)) =
+      (fun r : Backend =>
+        let s := if r.secret.isEmpty then f.common else r.secret
+        if s.isEmpty then none else some ⟨r.id, s⟩) := by
+    funext r
+    rw [effectiveSecret_eq]
+    simp only []
+    split <;> (try split) <;> simp_all
+  show List.filterMap _ f.backends = List.filterMap _ f.backends
+  rw [hfun]
+
+/-- Startup: the table of secrets is the statement's reading of the file. -/
+theorem C02_start_secrets (f : SecretFile) : (startSecrets f).backends = specSecrets f := by
+  unfold startSecrets
+  rw [startFromLoadedFile_true]
+  exact resolveSecrets_eq_spec f
+
+/-- `Reload`: whatever the storage held or cached before, afterwards the table of secrets is the statement's reading
+of the file just loaded. -/
+theorem C02_reload_secrets (st : SecretState) (f : SecretFile) : (reloadSecrets st f).backends = specSecrets f := by
+  unfold reloadSecrets
+  rw [reloadFromLoadedFile_true]
+  exact resolveSecrets_eq_spec f
+
+/-- The storage after a start and any number of reloads. -/
+def loadAll (f0 : SecretFile) (fs : List SecretFile) : SecretState := fs.foldl reloadSecrets (startSecrets f0)
+
+theorem foldl_reload_backends (fs : List SecretFile) (st : SecretState) (f : SecretFile) :
+    ((f :: fs).foldl reloadSecrets st).backends = specSecrets ((f :: fs).getLast (by simp)) := by
+  induction fs generalizing st f with
+  | nil => simpa using C02_reload_secrets st f
+  | cons g rest ih =>
+    have := ih (reloadSecrets st f) g
+    simpa [List.getLast_cons] using this
+
+/-- **C02, secret in force.**  For every start file and every sequence of reloaded files, the secrets the server
+checks incoming requests against and signs outgoing requests with are exactly those of the file loaded last, as the
+statement reads it (own secret, else the common secret of that same file; neither ⇒ not a backend). -/
+theorem C02_secret_in_force_is_current (f0 : SecretFile) (fs : List SecretFile) :
+    (loadAll f0 fs).backends = specSecrets (fileInForce f0 fs) := by
+  unfold loadAll fileInForce
+  cases fs with
+  | nil => simpa using C02_start_secrets f0
+  | cons f rest =>
+    rw [foldl_reload_backends rest (startSecrets f0) f]
+    simp [List.getLast_cons]
+
+/-- Rotation: after a reload a backend is a backend of the file just loaded, and a checksum made with any other
+secret — the one it had before, the former common secret — does not validate for it (ideal MAC). -/
+theorem C02_rotated_out_secret_rejected (mac : Mac) (hideal : IdealMac mac) (st : SecretState) (f : SecretFile)
+    (b : Backend) (hb : b ∈ (reloadSecrets st f).backends) :
+    b ∈ specSecrets f ∧
+    ∀ old rnd body : Bytes, old ≠ b.secret → validate mac (checksumOf mac rnd body old) rnd body b.secret = false := by
+  refine ⟨by rwa [C02_reload_secrets] at hb, ?_⟩
+  intro old rnd body hold
+  cases h : validate mac (checksumOf mac rnd body old) rnd body b.secret with
+  | false => rfl
+  | true =>
+    rw [validate_iff, checksumOf_eq_stmt] at h
+    have := hideal _ _ _ _ (toHex_injective h)
+    exact absurd this.1 hold
+
+example :
+    let f0 : SecretFile := ⟨[1], [⟨"b1", []⟩, ⟨"b2", [7]⟩]⟩
+    let f1 : SecretFile := ⟨[2], [⟨"b1", []⟩, ⟨"b2", [7]⟩, ⟨"b3", []⟩]⟩
+    let f2 : SecretFile := ⟨[], [⟨"b1", []⟩, ⟨"b2", [8]⟩]⟩
+    (loadAll f0 []).backends = [⟨"b1", [1]⟩, ⟨"b2", [7]⟩] ∧
+    (loadAll f0 [f1]).backends = [⟨"b1", [2]⟩, ⟨"b2", [7]⟩, ⟨"b3", [2]⟩] ∧
+    (loadAll f0 [f1, f2]).backends = [⟨"b2", [8]⟩] := by
+  decide +kernel
+
+/-! ## 10. A signed request and the redirects it is answered with
+
+Every signed request is sent through a pool client whose `CheckRedirect` refuses a redirect to another scheme or
+another host (name **and** port).  So every request an outgoing request leads to — each of them carrying the random
+and checksum of the first — stays on the scheme and host of the backend it was signed for.  Within that origin the
+path is free: see `C02_redirect_within_origin_leaves_backend`. -/
+
+theorem C02_redirect_guard_facts :
+    checkRedirectProgram = [stmtCheckRedirect, "return nil"] ∧ outgoingSentThroughPoolClient = true ∧
+    poolClientLiterals = poolClientLiteralsWithCheckRedirect ∧ 0 < poolClientLiterals ∧ outgoingOwnClients = 0 := by
+  decide +kernel
+
+theorem clientGuarded_true : clientGuarded = true := by decide +kernel
+
+theorem redirectAllowed_iff (prev next : List Char) :
+    redirectAllowed prev next = true ↔ schemeOf next = schemeOf prev ∧ hostOf next = hostOf prev := by
+  unfold redirectAllowed
+  rw [clientGuarded_true]
+  simp
+
+/-- **C02, redirects.**  Whatever the servers answer, every further request is sent to the scheme and host of the first. -/
+theorem C02_redirect_stays_on_origin (chain : List Hop) (u : List Char) (post : Bool) :
+    ∀ s ∈ follow u post chain, schemeOf s.url = schemeOf u ∧ hostOf s.url = hostOf u := by
+  induction chain generalizing u post with
+  | nil => intro s hs; simp [follow] at hs
+  | cons h rest ih =>
+    intro s hs
+    unfold follow at hs
+    by_cases hc : isRedirectCode h.code = true
+    · by_cases ha : redirectAllowed u h.location = true
+      · simp only [hc, ha, Bool.not_true, Bool.false_eq_true, ↓reduceIte, List.mem_cons] at hs
+        have ho := (redirectAllowed_iff u h.location).1 ha
+        rcases hs with rfl | hs
+        · exact ho
+        · have := ih h.location _ s hs
+          exact ⟨this.1.trans ho.1, this.2.trans ho.2⟩
+      · simp [hc, ha] at hs
+    · simp [hc] at hs
+
+/-- A redirect to another scheme, host name or port ends the exchange: nothing further is sent. -/
+theorem C02_redirect_other_origin_not_followed (u : List Char) (post : Bool) (h : Hop) (rest : List Hop)
+    (hne : schemeOf h.location ≠ schemeOf u ∨ hostOf h.location ≠ hostOf u) : follow u post (h :: rest) = [] := by
+  have : redirectAllowed u h.location = false := by
+    cases hr : redirectAllowed u h.location with
+    | false => rfl
+    | true =>
+      have := (redirectAllowed_iff u h.location).1 hr
+      rcases hne with h1 | h2
+      · exact absurd this.1 h1
+      · exact absurd this.2 h2
+  unfold follow
+  by_cases hc : isRedirectCode h.code = true <;> simp [hc, this]
+
+theorem C02_deliveries_same_origin (t : Option Backend) (u : List Char) (chain : List Hop) :
+    ∀ s ∈ deliveries t u chain, schemeOf s.url = schemeOf u ∧ hostOf s.url = hostOf u := by
+  intro s hs
+  unfold deliveries at hs
+  cases t with
+  | none => simp at hs
+  | some b =>
+    simp only [List.mem_cons] at hs
+    rcases hs with rfl | hs
+    · exact ⟨rfl, rfl⟩
+    · exact C02_redirect_stays_on_origin chain u true s hs
+
+/-- The host compared is name and port; scheme, name and port each stop a redirect.  And the limit of the guard:
+two backends on one origin — a 307 of the first to the url of the second is followed, the second receives the POST
+with the checksum made with the first one's secret (the judge's verdict on exactly what the model sends; open finding
+`C02-redirect-within-origin-leaves-backend`, reproduced on the code by the harness). -/
+theorem C02_redirect_within_origin_leaves_backend :
+    let b1 : Backend := ⟨"b1", [1]⟩
+    let b2 : Backend := ⟨"b2", [2]⟩
+    let es : List Entry := [⟨b1, "http://h:80/one/".toList⟩, ⟨b2, "http://h:80/two/".toList⟩]
+    let u := "http://h:80/one/ocs".toList
+    let two := "http://h:80/two/ocs".toList
+    let rnd : Bytes := [97]
+    let body : Bytes := [123, 125]
+    hostOf u = "h:80".toList ∧ schemeOf u = "http".toList ∧
+    deliveries (lookup es u) u [⟨307, "http://h:81/one/ocs".toList⟩] = [⟨u, true, true⟩] ∧
+    deliveries (lookup es u) u [⟨308, "http://g:80/one/ocs".toList⟩] = [⟨u, true, true⟩] ∧
+    deliveries (lookup es u) u [⟨307, "https://h:80/one/ocs".toList⟩] = [⟨u, true, true⟩] ∧
+    deliveries (lookup es u) u [⟨302, "http://h:80/one/index.php".toList⟩, ⟨307, "http://h:80/one/x".toList⟩] =
+      [⟨u, true, true⟩, ⟨"http://h:80/one/index.php".toList, false, false⟩, ⟨"http://h:80/one/x".toList, false, true⟩] ∧
+    lookup es u = some b1 ∧ owners es two = [b2] ∧
+    deliveries (lookup es u) u [⟨307, two⟩] = [⟨u, true, true⟩, ⟨two, true, true⟩] ∧
+    redirectVerdicts toyMac es body u [⟨two, true, rnd, body, checksumOf toyMac rnd body b1.secret⟩] =
+      "violated:redirect-within-origin-leaves-backend-url" ∧
+    redirectVerdicts toyMac es body u [⟨"http://h:80/one/x".toList, true, rnd, body, checksumOf toyMac rnd body b1.secret⟩] = "ok" := by
+  decide +kernel
+
 /-! ## 8. Non-vacuity -/
 
 /-- The hypotheses of the tampering theorems are met by a concrete valid request (toy MAC),
